@@ -508,7 +508,9 @@ func conclude(sp *propSpec, outcomes []*childOutcome, tier string, seed uint64, 
 		}
 		// abnormal end
 		complete := oc.res != nil && oc.res.Complete
-		if oc.exit == 4 && oc.res != nil {
+		if oc.run.Race && oc.exit == 66 && oc.res != nil && oc.res.Complete {
+			// the race detector's exit code: its reports are collected below
+		} else if oc.exit == 4 && oc.res != nil {
 			// the monitor's own spin watchdog ended the process; its violation is in the result
 		} else if !complete || (oc.exit != 0 && oc.exit != 3) {
 			logHead := headFile(oc.logPath, 1<<20)
